@@ -53,6 +53,9 @@ type Universe struct {
 	repo  string
 	tests bool
 
+	fnAlias map[string]*types.Func
+	Renames []string
+
 	cg       *callgraph.Graph
 	cgKind   string
 	allFuncs map[*ssa.Function]bool
@@ -214,6 +217,7 @@ func loadUniverseOverlay(name, repo, dir string, tests bool, overlay map[string]
 			}
 		}
 	}
+	u.computeRenames()
 	return u
 }
 
@@ -263,6 +267,16 @@ func (u *Universe) Named(pkg, name string) *types.Named {
 // FuncObj finds a package-level function (recv == "") or a method declared on recv (name of the
 // named type, without '*').
 func (u *Universe) FuncObj(pkg, recv, name string) *types.Func {
+	if f := u.funcObjExact(pkg, recv, name); f != nil {
+		return f
+	}
+	if u.fnAlias != nil {
+		return u.fnAlias[pkg+"|"+recv+"|"+name]
+	}
+	return nil
+}
+
+func (u *Universe) funcObjExact(pkg, recv, name string) *types.Func {
 	p := u.Pkgs[pkg]
 	if p == nil {
 		return nil
@@ -328,16 +342,33 @@ func fnName(f *ssa.Function) string {
 			t = p.Elem()
 		}
 		if n, ok := t.(*types.Named); ok {
-			return n.Obj().Name() + "." + f.Name()
+			return n.Obj().Name() + "." + oldFuncName(f)
 		}
 	}
 	if f.Parent() != nil {
 		return fnName(f.Parent()) + "$" + f.Name()
 	}
 	if f.Pkg != nil {
-		return f.Pkg.Pkg.Name() + "." + f.Name()
+		return f.Pkg.Pkg.Name() + "." + oldFuncName(f)
 	}
 	return f.Name()
+}
+
+// oldFuncName is the baseline name of a function that was recognised as renamed.
+func oldFuncName(f *ssa.Function) string {
+	if o, ok := f.Object().(*types.Func); ok {
+		if old, renamed := funcOldName[o]; renamed {
+			return old
+		}
+	}
+	return f.Name()
+}
+
+func oldObjName(o *types.Func) string {
+	if old, renamed := funcOldName[o]; renamed {
+		return old
+	}
+	return o.Name()
 }
 
 func objName(o *types.Func) string {
@@ -351,13 +382,13 @@ func objName(o *types.Func) string {
 			t = p.Elem()
 		}
 		if n, ok := t.(*types.Named); ok {
-			return n.Obj().Name() + "." + o.Name()
+			return n.Obj().Name() + "." + oldObjName(o)
 		}
 	}
 	if o.Pkg() != nil {
-		return o.Pkg().Name() + "." + o.Name()
+		return o.Pkg().Name() + "." + oldObjName(o)
 	}
-	return o.Name()
+	return oldObjName(o)
 }
 
 // ordaFuncs lists the SSA functions (declared ones and their closures) of the orda packages whose
